@@ -281,6 +281,20 @@ pub fn generate(a: &Args) {
         let lossy = String::from_utf8_lossy(&b).to_string();
         scs.push(json!({"kind": if k % 2 == 0 { "dec" } else { "enc" }, "via": "string", "alist": lossy, "arg_bytes": b, "name": "Phif64", "pat": "", "path": "", "ops": [], "why": "alist"}));
     }
+    // files that are not valid UTF-8, with the invalid bytes in lines the parser skips (maximum weights, weight lists, row lists,
+    // a trailer) or in one it reads: not text, hence not an alist
+    for (k, region) in ["maxw", "colw", "rows", "trailer", "cols"].iter().enumerate() {
+        let mut lines: Vec<Vec<u8>> = good_alist.split('\n').map(|l| l.as_bytes().to_vec()).collect();
+        let nl = lines.len();
+        let target = match *region { "maxw" => 1, "colw" => 2, "rows" => nl.saturating_sub(2), "trailer" => nl - 1, _ => 4 };
+        match *region { "trailer" => lines[target].extend_from_slice(b"\xff\xfe"), _ => { lines[target].push(b' '); lines[target].push([0xffu8, 0x80, 0xc3][k % 3]); } }
+        let bytes: Vec<u8> = lines.join(&b'\n');
+        let path = format!("{work}/c19-nonutf8-{region}.alist");
+        std::fs::write(&path, &bytes).unwrap();
+        for kind in ["dec", "enc"] {
+            scs.push(json!({"kind": kind, "via": "file", "alist": "", "name": "Phif64", "pat": "", "path": path, "ops": [], "why": "file"}));
+        }
+    }
     for p in [format!("{work}/does-not-exist.alist"), work.clone(), "".to_string(), "/proc/self/mem".to_string()] {
         scs.push(json!({"kind": "dec", "via": "file", "alist": "", "name": "Phif64", "pat": "", "path": p, "ops": [], "why": "file"}));
         scs.push(json!({"kind": "enc", "via": "file", "alist": "", "name": "", "pat": "", "path": p, "ops": [], "why": "file"}));
